@@ -54,13 +54,23 @@ EXPLANATION = ("Dispatch constructors and call paths of the three frameworks are
 _counter = [0]
 
 
-def register_new_type(flavor):
+_CLASSNAME = {"term": "LateTerminal", "op": "LateOperator", "sumchild": "LateSum"}
+
+
+def reserve(flavor):
+    """Reserve the name of a type to be registered later: (uniq, handler name the decorator will derive from the class name)."""
+    from ufl.utils.formatting import camel2underscore
+    _counter[0] += 1
+    import os
+    uniq = f"{_counter[0]}x{os.getpid()}"
+    return uniq, camel2underscore(_CLASSNAME[flavor] + uniq)
+
+
+def register_new_type(flavor, uniq=None):
     """Register a new Expr subclass through the public decorator (unique class name per call).
     flavor: term | op | sumchild"""
-    _counter[0] += 1
-    k = _counter[0]
-    import os
-    uniq = f"{k}x{os.getpid()}"
+    if uniq is None:
+        uniq, _ = reserve(flavor)
     if flavor == "term":
         def __init__(self):
             Terminal.__init__(self)
@@ -140,27 +150,36 @@ def build(run):
     run.function(DAGTraverser.__call__)
 
     # ---- contract cells for the table-based frameworks
-    def cell(framework, cellname, handled, entry="call"):
+    def cell(framework, cellname, handled, entry="call", dedicated=False):
         def thunk():
-            cls = make_alg(framework, handled)
+            handled_ = tuple(handled)
+            res = {}
+            if dedicated:
+                # the algorithm class defines a handler named after each type that is registered later (a plugin shipping its
+                # own node type together with an algorithm that handles it by name)
+                for fl in ("term", "op", "sumchild"):
+                    res[fl] = reserve(fl)
+                handled_ = handled_ + tuple(hn for _, hn in res.values())
+            reg = lambda fl: register_new_type(fl, res[fl][0] if dedicated else None)      # noqa: E731
+            cls = make_alg(framework, handled_)
             insts = []
             news = []
             if cellname == "cache-miss":
-                news.append(register_new_type("sumchild"))
+                news.append(reg("sumchild"))
                 insts.append(cls())
             elif cellname == "cache-fresh":
-                news.append(register_new_type("op"))
+                news.append(reg("op"))
                 cls()
                 insts.append(cls())
             elif cellname == "cache-stale":
                 cls()                                   # populates the class-level cache
-                news.append(register_new_type("term"))
-                news.append(register_new_type("sumchild"))
+                news.append(reg("term"))
+                news.append(reg("sumchild"))
                 insts.append(cls())                     # must see the new types
             elif cellname == "old-instance-new-type":
                 insts.append(cls())
-                news.append(register_new_type("op"))
-                news.append(register_new_type("sumchild"))
+                news.append(reg("op"))
+                news.append(reg("sumchild"))
             inst = insts[-1]
             n = 0
             # postcondition of __init__ for ALL registered types (table level); for the old-instance cell the table is
@@ -178,14 +197,14 @@ def build(run):
                     except (IndexError, TypeError) as ex:
                         return violated(f"{framework}/{cellname}: no dispatch entry for registered type {T.__name__} "
                                         f"(typecode {tc}): {type(ex).__name__}: {ex}",
-                                        replay={"history": cellname, "framework": framework, "handlers": list(handled), "type": T.__name__},
+                                        replay={"history": cellname, "framework": framework, "handlers": list(handled_), "type": T.__name__},
                                         reproduced=True, backend="exec")
                     if want is None:
                         continue
                     if fn(h) is not fn(getattr(cls, want)):
                         return violated(f"{framework}/{cellname}: type {T.__name__} bound to {fn(h).__qualname__}, nearest-ancestor rule "
                                         f"gives handler {want!r}",
-                                        replay={"history": cellname, "framework": framework, "handlers": list(handled), "type": T.__name__},
+                                        replay={"history": cellname, "framework": framework, "handlers": list(handled_), "type": T.__name__},
                                         reproduced=True, backend="exec")
             # invariant of __call__/visit: by actually calling
             for (T, mk) in news:
@@ -204,7 +223,7 @@ def build(run):
                                         f"{type(o).__name__} failed with {type(ex).__name__}: {ex}",
                                         replay={"history": cellname, "framework": framework, "handlers": list(handled),
                                                 "type": type(o).__name__}, reproduced=True, backend="exec")
-                    exp = getattr(inst, want)(o) if want not in handled else want
+                    exp = getattr(inst, want)(o) if want not in handled_ else want
                     if not (got is exp or got == exp):
                         return violated(f"{framework}/{cellname}: {type(o).__name__} dispatched to a handler returning {got!r}, "
                                         f"expected handler {want!r}",
@@ -223,6 +242,13 @@ def build(run):
                     # the same history, entered through the DAG mappers first (no direct call has refreshed the tables)
                     for entry in ("map_expr_dag", "map_expr_dags"):
                         run.add(f"{fw}/{cn}/handlers[{','.join(hs)}]/via-{entry}", cell(fw, cn, hs, entry), kind="values")
+            for hs in HANDLER_SETS[:3]:
+                if fw == "tr" and "ufl_type" in hs:
+                    continue
+                run.add(f"{fw}/{cn}/handlers[{','.join(hs)}]+handler-named-after-the-late-type", cell(fw, cn, hs, dedicated=True), kind="values")
+                if fw == "mf":
+                    run.add(f"{fw}/{cn}/handlers[{','.join(hs)}]+handler-named-after-the-late-type/via-map_expr_dag",
+                            cell(fw, cn, hs, "map_expr_dag", dedicated=True), kind="values")
 
     # ---- DAGTraverser (singledispatch): new subclass must reach nearest registered ancestor
     def dagt():
